@@ -183,9 +183,13 @@ WeightOK(m) == HasWeight(m) =>
 FullWeight(m) == IF HasWeight(m) THEN BlockDiag(WeightMats(m)) ELSE Ident(NRows(m))
 
 \* ------------------------------------------------------------------ the documented systems
-\* L = [R, J, W] after the corrector
-Linearise(m) == Only({ [R |-> c[1], J |-> c[2], W |-> FullWeight(m), hasW |-> HasWeight(m)] :
-                       c \in { Corrected(m, RawR(m), RawJ(m)) } })
+\* L = [R, J] after the corrector, W, and the raw R0, J0 handed to the corrector
+Linearise(m) ==
+  Only({ Only({ [R |-> c[1], J |-> c[2], W |-> FullWeight(m), hasW |-> HasWeight(m), R0 |-> r0, J0 |-> j0] :
+                c \in { Corrected(m, r0, j0) } }) :
+         r0 \in { RawR(m) }, j0 \in { RawJ(m) } })
+\* rows of block b inside the stacked vectors: <<offset, count>>
+BlockRows(m, b) == LET n == [k \in 1..Len(m.blocks) |-> m.blocks[k].R * Len(m.blocks[k].items)] IN <<SumN(n, b - 1), n[b]>>
 
 GNSystem(L) == IF L.hasW THEN [A |-> MatMul(L.W, L.J), b |-> VNeg(MatVec(L.W, L.R))]
                ELSE [A |-> L.J, b |-> VNeg(L.R)]
@@ -270,6 +274,21 @@ Unchanged(m, after) ==
   /\ \A i \in 1..Len(es) : IF m.kinds[es[i].g] = "G"
                            THEN SameGroupElem(PlainG(m.ty, after[i]), PlainG(m.ty, m.vals[es[i].g]))
                            ELSE after[i] = m.vals[es[i].g]
+\* first-order change (tensor layout) of a group element under  Exp(eps a) @ X : the dual part of the
+\* product in the dual ring; a driver applies delta = 2^-k a and reports (X_new - X) 2^k
+FirstOrder(ty, x, a) ==
+  LET Zd == R!Mul(R!ExpNearTrans(DecA(ty, TLCEval([j \in 1..ADim(ty) |-> <<DZero, a[j]>>]))), DecG(ty, Lift(x)))
+      t == <<Du(Zd.t[1]), Du(Zd.t[2]), Du(Zd.t[3])>>
+      q == <<Du(Zd.q[1]), Du(Zd.q[2]), Du(Zd.q[3]), Du(Zd.q[4])>> IN
+  CASE ty = "SO3" -> q [] ty = "SE3" -> t \o q [] ty = "RxSO3" -> q \o <<Du(Zd.s)>> [] ty = "Sim3" -> t \o q \o <<Du(Zd.s)>>
+FirstOrderElem(m, g, fr, a, chg) ==
+  IF fr THEN chg = VZero(Len(m.vals[g]))
+  ELSE IF m.kinds[g] = "G" THEN chg = FirstOrder(m.ty, m.vals[g], a)
+  ELSE chg = a
+FirstOrderOK(m, a, chg) ==
+  LET es == Elems(m, TRUE) IN
+  /\ Len(chg) = Len(es)
+  /\ \A i \in 1..Len(es) : FirstOrderElem(m, es[i].g, es[i].fr, DeltaOf(m, a, es[i].g), chg[i])
 DeltaExact(m, delta) ==      \* every group element's slice is rotation-free (precondition of Retract)
   LET c == Columns(m) IN \A i \in 1..Len(c) : m.kinds[c[i]] = "G" => RotationFree(m.ty, DeltaOf(m, delta, c[i]))
 ================================================================================
